@@ -127,6 +127,8 @@ class inject:
 
     def __init__(self, fault, fmt, small_chunks=False, src_marker=os.sep + "temp", target=None):
         self.fault, self.fmt, self.small, self.src_marker, self.target = fault, fmt, small_chunks, src_marker, target
+        self.fired = False          # did the injected fault actually raise?
+        self.src_path = None        # the yielded temporary path (set by the caller's block): the source of compress_as
 
     def __enter__(self):
         import typhon.files.utils as U
@@ -138,14 +140,18 @@ class inject:
 
         def open_(path, mode="r", *a, **k):
             p = str(path)
-            if fault == "openSrc" and "r" in mode and p.endswith(self.src_marker):
+            is_src = os.path.abspath(p) == self.src_path if self.src_path else p.endswith(self.src_marker)
+            if fault == "openSrc" and "r" in mode and is_src:
+                self.fired = True
                 raise Boom("open source")
             if fault == "openTarget" and "w" in mode and target and os.path.abspath(p) == os.path.abspath(target):
+                self.fired = True
                 raise Boom("open target")
             return builtins.open(path, mode, *a, **k)
 
         def copyfileobj(fsrc, fdst, length=0):
             if fault == "copy":
+                self.fired = True           # the hook point is reached (reading a corrupt source may raise by itself)
                 data = fsrc.read(64)
                 fdst.write(data[:max(1, len(data) // 2)] if data else b"")
                 raise Boom("copy")
@@ -159,11 +165,15 @@ class inject:
             real = self.saved_entry
             if fault == "ctor":
                 def entry(*a, **k):
+                    self.fired = True
                     raise Boom("constructor")
                 U._known_compressions[self.fmt] = entry
             elif fault in ("copy", "openSrc") and self.fmt == "zip":
+                inj = self
+
                 class Z(zipfile.ZipFile):
                     def write(self, *a, **k):
+                        inj.fired = True
                         raise Boom("zip write")
                 U._known_compressions["zip"] = Z
         return self
@@ -203,10 +213,12 @@ def compress_case(ck, batch, scratch, name, fmt, fault, body, content, old, smal
         out_before = listing(out)
         yielded, exc = None, None
         use_tmp = os.path.join(root, "missing") if fault == "mkTmpDir" else tmpdir
+        inj = inject(fault, eff if known else None, small, target=target)
         try:
-            with inject(fault, eff if known else None, small, target=target):
+            with inj:
                 with compress(target, fmt=fmt, tmpdir=use_tmp) as p:
                     yielded = p
+                    inj.src_path = os.path.abspath(p)
                     if body in ("write", "writeraise"):
                         with builtins.open(p, "wb") as f:
                             f.write(content)
@@ -240,8 +252,15 @@ def compress_case(ck, batch, scratch, name, fmt, fault, body, content, old, smal
             if known and tstate != old:
                 ck.violation("target-touched-on-exception", f"block raised but the target changed: "
                              f"{'absent' if tstate is None else (tstate if tstate == 'dir' else tstate[:20])}", case)
-        if fault is not None and known and exc is None and not (fault == "openTarget" and eff != "gz"):
-            ck.violation("fault-swallowed", f"injected fault {fault} did not surface", case)
+        # did the injected fault fire?  (mkTmpDir is a natural fault: a missing tmpdir)  A fault point that is never
+        # reached means the I/O sequence differs from the model's — a correspondence matter, not a defect of the code
+        reachable = fault is not None and known and fault != "mkTmpDir" and not body_raised and old != "dir" and \
+            not (fault == "openTarget" and eff != "gz") and not (body == "idle" and not (eff == "zip" or fault == "openSrc"))
+        not_fired = reachable and not inj.fired
+        if not_fired:
+            ck.disagree(f"compress {name!r} fmt={fmt}: the injected fault '{fault}' was never reached (hook point moved?)", case)
+        if fault is not None and known and inj.fired and exc is None:
+            ck.violation("fault-swallowed", f"injected fault {fault} was raised inside compress but did not surface", case)
         success = exc is None
         if success and known and body == "write":
             got = read_archive(tstate) if isinstance(tstate, bytes) else None
@@ -281,6 +300,8 @@ def compress_case(ck, batch, scratch, name, fmt, fault, body, content, old, smal
             want = f"{outcome} target={tclass} tmpclean={str(not tmp_after).lower()} yielded={'temp' if known else 'name'}"
             if yielded is None and exc is not None and not known:
                 return
+            if not_fired:
+                return          # already reported once as "fault never reached"
             if o[0] != want:
                 ck.disagree(f"compress {name!r} fmt={fmt} fault={fault} body={body}: model '{o[0][:120]}' vs code '{want[:120]}'", case)
         batch.add([line], cb)
@@ -296,6 +317,8 @@ def name_for_model(name):
 def decompress_case(ck, batch, scratch, name, fault, body, arch, use_target=False, small=False):
     """arch: None | "dir" | ("good", fmt, member, content) | ("corrupt", how, fmt, content)"""
     from typhon.files import decompress
+    if use_target and fault == "mkTmpFile":
+        fault = None            # with target= no temporary file is made; opening the target is not fault-injected
     case = {"op": "decompress", "name": name, "fault": fault, "body": body, "use_target": use_target, "small_chunks": small,
             "arch": arch if arch in (None, "dir") else [arch[0], arch[1], arch[2], arch[3].hex()]}
     root = tempfile.mkdtemp(dir=scratch)
@@ -329,8 +352,9 @@ def decompress_case(ck, batch, scratch, name, fault, body, arch, use_target=Fals
         yielded, exc, seen = None, None, None
         use_tmp = os.path.join(root, "missing") if fault == "mkTmpFile" and not use_target else tmpdir
         kw = {"target": explicit} if use_target else {}
+        inj = inject(fault, eff if known else None, small)
         try:
-            with inject(fault, eff if known else None, small):
+            with inj:
                 with decompress(path, tmpdir=use_tmp, **kw) as p:
                     yielded = p
                     with builtins.open(p, "rb") as f:
@@ -357,6 +381,13 @@ def decompress_case(ck, batch, scratch, name, fault, body, arch, use_target=Fals
                     ck.violation("archive-modified", "decompress changed the archive", case)
         if body == "raise" and yielded is not None and not isinstance(exc, BodyError):
             ck.violation("exception-lost", f"exception of the block did not propagate (got {type(exc).__name__})", case)
+        lib_ok = data is not None and known and stdlib_read(eff, data, os.path.basename(os.path.splitext(name)[0])) is not None
+        reachable = known and (fault == "ctor" or (fault == "copy" and data is not None and (eff != "zip" or lib_ok)))
+        not_fired = reachable and not inj.fired
+        if not_fired:
+            ck.disagree(f"decompress {name!r}: the injected fault '{fault}' was never reached (hook point moved?)", case)
+        if fault in ("ctor", "copy") and inj.fired and exc is None:
+            ck.violation("fault-swallowed", f"injected fault {fault} was raised inside decompress but did not surface", case)
         good_match = arch not in (None, "dir") and arch[0] == "good" and arch[1] == eff and \
             (eff != "zip" or arch[2] == os.path.basename(os.path.splitext(name)[0]))
         if known and good_match and fault is None:
@@ -376,8 +407,6 @@ def decompress_case(ck, batch, scratch, name, fault, body, arch, use_target=Fals
                 kind=f"decompress/{eff if known else 'pass'}/{fault or 'nofault'}/{body}/{'none' if arch is None else arch if arch == 'dir' else arch[0] + ('-' + arch[1] if arch[0] == 'corrupt' else '')}",
                 sample={"name": name, "fault": fault, "body": body, "archive": case["arch"] and case["arch"][:3], "outcome": outcome,
                         "seen_bytes": None if seen is None else len(seen)})
-        if use_target:
-            return
         # ---- model
         if arch is None:
             a = "absent"
@@ -393,10 +422,17 @@ def decompress_case(ck, batch, scratch, name, fault, body, arch, use_target=Fals
             return          # pass-through of a missing file: the harness body itself fails to open it
         if not known and a.startswith("enc:"):
             a = "raw:" + hx(data)
-        line = f"decompress {hx(name_for_model(name))} {fault or '-'} {'raise' if body == 'raise' else 'read'} {a}"
+        line = f"{'decompressto' if use_target else 'decompress'} {hx(name_for_model(name))} {fault or '-'} " \
+               f"{'raise' if body == 'raise' else 'read'} {a}"
+        tgt_state = "present" if (use_target and os.path.exists(explicit)) else "absent"
 
         def cb(o):
             want = f"{outcome} seen={'none' if seen is None else hx(seen)} tmpclean={str(not tmp_after).lower()} yielded={'temp' if known else 'name'}"
+            if use_target:
+                want = f"{outcome} seen={'none' if seen is None else hx(seen)} tmpclean={str(not tmp_after).lower()} " \
+                       f"yielded={'target' if known else 'name'} target={tgt_state}"
+            if not_fired:
+                return
             if o[0] != want:
                 ck.disagree(f"decompress {name!r} fault={fault} body={body} arch={a[:40]}: model '{o[0][:100]}' vs code '{want[:100]}'", case)
         batch.add([line], cb)
